@@ -235,5 +235,30 @@ k2("K104", "C18", [("frame/encode.go", "func (c *codec) EncodeBody(header *Heade
   ("frame/encode.go", "import (\n\t\"bytes\"\n", "import (\n\t\"bytes\"\n\t\"sync\"\n")],
   "pool:(*frame.codec).EncodeBody", "pooled buffer released twice on an error path (seeded C18-A)")
 
+# ---- C09 / C10
+k("K50", "C09", "client/inflight.go", "\tif managedStreamId {\n\t\t// the request was not registered: return the borrowed stream id to the pool\n\t\t_ = h.releaseStreamId(streamId)\n\t}\n", "",
+  "borrow-release:", "release on the error exit removed")
+k2("K51", "C09", [("client/inflight.go", "\t} else if len(h.inFlight) == h.maxInFlight {\n\t\treturn nil, fmt.Errorf(\"%v: too many in-flight requests: %v\", h, h.maxInFlight)\n\t} else if _, found := h.inFlight[streamId]; found {\n\t\treturn nil, fmt.Errorf(\"%v: stream id already in use: %d\", h, streamId)\n\t}\n", "\t}\n"),
+  ("client/inflight.go", "\tvar inFlight *inFlightRequest\n\tif inFlight, err = h.addInFlight(streamId, managedStreamId); err == nil {", "\th.inFlightLock.RLock()\n\tif len(h.inFlight) == h.maxInFlight {\n\t\terr = fmt.Errorf(\"%v: too many in-flight requests: %v\", h, h.maxInFlight)\n\t} else if _, found := h.inFlight[streamId]; found {\n\t\terr = fmt.Errorf(\"%v: stream id already in use: %d\", h, streamId)\n\t}\n\th.inFlightLock.RUnlock()\n\tvar inFlight *inFlightRequest\n\tif err != nil {\n\t} else if inFlight, err = h.addInFlight(streamId, managedStreamId); err == nil {")],
+  "atomic-insert:", "tests moved out of the write-lock region")
+k("K52", "C09", "client/inflight.go", "\tselect {\n\tcase id, ok := <-h.streamIds:\n\t\tif !ok {\n\t\t\treturn -1, fmt.Errorf(\"%v: handler closed\", h)\n\t\t}\n\t\tlog.Debug().Msgf(\"%v: borrowed stream id: %v\", h, id)\n\t\treturn id, nil\n\tdefault:\n\t\treturn -1, fmt.Errorf(\"%v: no stream id available\", h)\n\t}", "\tid, ok := <-h.streamIds\n\tif !ok {\n\t\treturn -1, fmt.Errorf(\"%v: handler closed\", h)\n\t}\n\treturn id, nil",
+  "non-blocking:", "blocking receive on the id pool")
+k("K105", "C09", "client/inflight.go", "\tfor i := 1; i <= maxInFlight; i++ {", "\tfor i := 0; i < maxInFlight; i++ {",
+  "non-blocking:", "pool prefilled with 0..N-1 (0 is the managed marker)")
+k("K106", "C09", "client/inflight.go", "\t\t\tif inFlight.managedStreamId {\n\t\t\t\tif err := h.releaseStreamId(streamId); err != nil {\n\t\t\t\t\treturn err\n\t\t\t\t}\n\t\t\t}\n\t\t}\n\t\terr = inFlight.onFrameReceived(f)", "\t\t}\n\t\terr = inFlight.onFrameReceived(f)\n\t\tif err == nil && isLastFrame(f) && inFlight.managedStreamId {\n\t\t\terr = h.releaseStreamId(streamId)\n\t\t}",
+  "incoming-release:", "id released only when delivery succeeded (seeded C09-B)")
+k("K107", "C09", "client/inflight.go", "\t\t\tif rows.Metadata.Flags()&primitive.RowsFlagDseContinuousPaging != 0 {", "\t\t\tif f.Header.Version == primitive.ProtocolVersionDse2 && rows.Metadata.Flags()&primitive.RowsFlagDseContinuousPaging != 0 {",
+  "last-frame:", "continuous paging recognised for DSE v2 only (seeded C09-A)")
+k("K53", "C10", "client/inflight.go", "\tif inFlight, found = h.inFlight[streamId]; !found {", "\tif inFlight, found = h.inFlight[int16(f.Header.BodyLength)]; !found {",
+  "routing-key:", "lookup key is not the frame's stream id")
+k("K54", "C10", "client/client.go", "\t\t\tlog.Error().Msgf(\"%v: events queue is full, discarding event frame: %v\", c, incoming)\n\t\t}\n\t} else {\n", "\t\t\tlog.Error().Msgf(\"%v: events queue is full, discarding event frame: %v\", c, incoming)\n\t\t}\n\t}\n\t{\n",
+  "event-routing:", "events also reach the in-flight handler")
+k("K108", "C10", "client/inflight.go", "\tif inFlight, found = h.inFlight[streamId]; !found {\n\t\terr = fmt.Errorf(\"%v: unknown stream id: %d\", h, streamId)\n\t}\n\th.inFlightLock.RUnlock()", "\tif inFlight, found = h.inFlight[streamId]; !found {\n\t\treturn fmt.Errorf(\"%v: unknown stream id: %d\", h, streamId)\n\t}\n\th.inFlightLock.RUnlock()",
+  "lock-pairing:inFlightRequestsHandler.onIncomingFrameReceived", "read lock leaked on the unknown-id path (seeded C10-B)")
+k("K109", "C10", "client/inflight.go", "\t\t\t\treturn rows.Metadata.LastContinuousPage\n", "\t\t\t\treturn rows.Metadata.LastContinuousPage || rows.Metadata.PagingState == nil\n",
+  "last-frame:", "page without paging state taken for the last one (seeded C10-A)")
+k("K110", "C10", "client/inflight.go", "\t\tif isLastFrame(f) {\n\t\t\tr.stopTimeout()\n\t\t\tr.close(nil)\n\t\t} else {\n\t\t\tr.resetTimeout()\n\t\t}", "\t\tr.stopTimeout()\n\t\tr.close(nil)",
+  "request-delivery:", "every page completes the request")
+
 json.dump(C, open(os.path.join(os.path.dirname(os.path.abspath(__file__)), "controls.json"), "w"), indent=1)
 print(len(C), "controls")
